@@ -1382,6 +1382,8 @@ def run(tier='quick', replay=None):
         ce_steps = {(ce['session'], ce['step']) for _, _, ce in all_ces}
         unexplained = [d for d in res.disagreements if (d['session'], d['step']) not in ce_steps or d['what'] != 'query']
         seen_corr = set()
+        if os.environ.get('C16_DEBUG'):
+            print('DEBUG unexplained', [(d['session'], d['step'], d['what']) for d in unexplained], 'ces', sorted(x for x in ce_steps if x[0] in {d['session'] for d in unexplained}))
         for d in unexplained:
             k = 'correspondence:%s:%s' % (d['what'], d['op'].get('q', d['op'].get('m', d['op'].get('d', {}))).get('k', d['op'].get('m', d['op'].get('d', {})).get('how', d['op']['op'])) if isinstance(d['op'], dict) else '?')
             if k in seen_corr:
